@@ -57,10 +57,18 @@ PROPS = {
     "C11": P(["lifecycle"],
              "Proof of the lower bound (Verus): a temporary_trampoline_failure produced with no attempt and no policy rejection implies now >= wait_started + mpp_timeout; every sleep is at most one mpp_timeout; timer/zero-time branches return without add_payment_attempt/pay. The upper bound is not applicable (timer/scheduler latency).",
              LIFE_NOTE + " NOT APPLICABLE clause: the upper bound on the failure time.", assumptions=A_WORLD),
-    "C12": P(["fee", "handle"],
+    "C12": dict(P(["fee", "handle"],
              "Proof (Verus, unbounded): fee_sufficient as extracted from src/messages.rs satisfies the exact integer predicate of the statement for all u64 x u64 x u32 x u32 outside the region of known finding F-C12-a, never answers true when the exact predicate is false anywhere, and has no overflow/panic. One proof covers checked and wrapping builds because no overflow occurs.",
              "Trusted: " + TB_COMMON + " vstd specs of checked_mul/checked_add. Known finding F-C12-a (amount*ppm >= 2^64 answers false) is excluded by region and reported as KNOWN-FINDING.",
              assumptions=[]),
+        kani=[
+            {"harness": "encode_policy_exact", "obligation": "failmsg::messages::HtlcFailReason::encode::kani#policy_layout", "fn": "messages::HtlcFailReason::encode"},
+            {"harness": "encode_constants_exact", "obligation": "failmsg::messages::HtlcFailReason::encode::kani#constant_failures", "fn": "messages::HtlcFailReason::encode"},
+            {"harness": "fee_sufficient_no_panic", "timeout": 300, "obligation": "fee::messages::TrampolineRoutingPolicy::fee_sufficient::kani#no_panic", "fn": "messages::TrampolineRoutingPolicy::fee_sufficient"},
+            {"harness": "fee_sufficient_exact_outside_mul_overflow_region", "role": "witness", "tier": "thorough", "timeout": 240,
+             "when_fails": "fee::messages::TrampolineRoutingPolicy::fee_sufficient::ensures#exact_outside_mul_overflow_region", "obligation": "fee::messages::TrampolineRoutingPolicy::fee_sufficient::kani#exact_outside_mul_overflow_region", "fn": "messages::TrampolineRoutingPolicy::fee_sufficient"},
+            {"harness": "fee_sufficient_exact_inside_mul_overflow_region", "role": "witness", "tier": "thorough", "timeout": 300, "obligation": "fee::messages::TrampolineRoutingPolicy::fee_sufficient::kani#exact_inside_mul_overflow_region", "fn": "messages::TrampolineRoutingPolicy::fee_sufficient"},
+        ], kani_quick=True),
     "C14": P(["lifecycle", "store"],
              "Proof of the two mechanisms (Verus): no RPC / channel wait / timer is started while the table lock is held (every such env call requires !lock_held; lock scope by ghost unlock marker E7). The scheduling statement itself is not applicable.",
              LIFE_NOTE + " NOT APPLICABLE clause: 'a frozen RPC of A does not delay B' (liveness of tokio's scheduler).", assumptions=A_WORLD),
